@@ -759,7 +759,7 @@ extern "C" int nsim_fibre_in_func (int tid, const char *fname) {
 extern "C" void nsim_op_begin (const char *name) {
 	Fibre *f = g.cur;
 	f->opname = name;
-	f->op_sleeps = 0; f->op_atomics = 0; f->op_idle_jumps = 0;
+	f->op_sleeps = 0; f->op_atomics = 0; f->op_idle_jumps = 0; f->op_last_timed_block_ns = -1;
 	f->op_sp_top = (uintptr_t) __builtin_frame_address (0) + 16;
 	f->min_sp = f->op_sp_top;
 	hfold (0x0b00ULL << 32 | (uint64_t) (uintptr_t) name);
@@ -782,6 +782,7 @@ extern "C" void nsim_op_end (void) {
 extern "C" int nsim_op_sleeps (void) { return g.cur->op_sleeps; }
 extern "C" int nsim_op_atomics (void) { return g.cur->op_atomics; }
 extern "C" int nsim_op_idle_jumps (void) { return g.cur->op_idle_jumps; }
+extern "C" int64_t nsim_op_last_timed_block_ns (void) { return g.cur->op_last_timed_block_ns; }
 
 extern "C" int64_t nsim_now_ns (void) { return g.now; }
 extern "C" int64_t nsim_start_ns (void) { return g.start; }
@@ -1075,6 +1076,7 @@ static int futex_wait (uint32_t *uaddr, uint32_t val, const struct timespec *ts,
 	if (f->fault_kind) f->fault_step = g.steps + 1 + take_choice (CH_WAKE_PICK, 40, g.replay_mode ? 0 : (int) rnd (g.rng, 40));
 	f->op_sleeps++;
 	f->total_sleeps++;
+	if (has_dl) f->op_last_timed_block_ns = g.now;
 	g.futex_blocks++;
 	TRACE ("futex_wait blocks on 0x%lx%s", (unsigned long) uaddr, has_dl ? " (timed)" : "");
 	(void) pc;
@@ -1315,6 +1317,7 @@ extern "C" int nsim_sys_pthread_cond_timedwait (pthread_cond_t *c, pthread_mutex
 		f->fault_kind = 0;
 		if (has_dl && choose_fault (CH_F_EARLYTO)) { f->fault_kind = CH_F_EARLYTO; f->fault_step = g.steps + 1 + take_choice (CH_WAKE_PICK, 40, g.replay_mode ? 0 : (int) rnd (g.rng, 40)); }
 		f->op_sleeps++; f->total_sleeps++;
+		if (has_dl) f->op_last_timed_block_ns = g.now;
 		g.futex_blocks++;
 		block_current (F_PCOND);
 		res = f->wake_res;
